@@ -1097,9 +1097,8 @@ func (n *network) startAcceptor(a gen.AcceptorOptions) (*acceptor, error) {
 		max_message_size: a.MaxMessageSize,
 		atom_mapping:     make(map[gen.Atom]gen.Atom),
 	}
-	if a.Cookie == "" {
-		acceptor.cookie = n.cookie
-	}
+	// an empty value makes the acceptor fall back to the node's cookie (see accept)
+	acceptor.cookie = a.Cookie
 	for k, v := range a.AtomMapping {
 		acceptor.atom_mapping[k] = v
 	}
